@@ -54,3 +54,15 @@ type Pair struct {
 	Right *Item
 	M     map[string]*Inner
 }
+
+// Deep collects container-of-container shapes.
+type Deep struct {
+	Grid [][]int
+	LM   []map[string]int
+	MS   map[string][]Inner
+	AI   [2]Inner
+	MM   map[string]map[string]int
+	PP   []*Item
+	Opt  *Extra `json:"opt,omitempty"`
+	Last []Inner
+}
